@@ -213,3 +213,24 @@ fn func_sampled_2d_total() {
     std::mem::forget(r); std::mem::forget(f);
     assert!(ok || !ok);
 }
+
+/// sampled function, three inputs, one output, 4 sample bytes (index arithmetic i0 + s0 * (i1 + s1 * i2), eight neighbours)
+#[kani::proof]
+#[kani::stub(std::fmt::format, nofmt)]
+fn func_sampled_3d_total() {
+    let d: [u8; 4] = kani::any();
+    let inp = || SampledFunctionInput { domain: (kani::any(), kani::any()), encode_offset: kani::any(), encode_scale: kani::any(), size: kani::any::<u32>() as usize };
+    let f = SampledFunction {
+        input: vec![inp(), inp(), inp()],
+        output: vec![SampledFunctionOutput { offset: kani::any(), scale: kani::any() }],
+        data: d.to_vec().into(),
+        order: Interpolation::Linear,
+        range: vec![kani::any(), kani::any()],
+    };
+    let x: [f32; 3] = [kani::any(), kani::any(), kani::any()];
+    let mut out = [0f32; 1];
+    let r = f.apply(&x, &mut out);
+    let ok = r.is_ok();
+    std::mem::forget(r); std::mem::forget(f);
+    assert!(ok || !ok);
+}
